@@ -12,7 +12,10 @@ Inductive case :=
 | CFault (md : mode) (U : list key) (now : Z) (init : list (list (key * val)))
          (cs : list (nat * bcmd)) (used : list nat) (order : list (list key)) (flts : list nat) (fds : list fdesc)
          (raised stuck : bool) (locks_left : list (list key)) (data : list (list (option val)))
-         (lock_life : list (list Z)).      (* remaining lifetime (ticks) of every lock key left behind, per backend *)
+         (lock_life : list (list Z))       (* remaining lifetime (ticks) of every lock key left behind, per backend *)
+(* one command ends with a BaseException that is not an Exception (CancelledError, e.g. a timeout around a hanging command):
+   the exit paths for that class are not modelled; only "the task has left the transaction" is judged *)
+| CCancel (stuck : bool).
 
 Definition init_b (now : Z) (kvs : list (key * val)) : txb :=
   txb0 (fold_left (fun m e => s_write m now (fst e) (snd e) 0) kvs empty).
@@ -48,10 +51,12 @@ Definition judge (c : case) : verdict :=
         (if existsb (fun d => match d with FD _ _ _ true => true | _ => false end) fds
          then ldata_eqb (map (data_of U now) (map (init_b now) init)) data else true) in
       (agree, ok, [])
+  | CCancel stuck => (true, negb stuck, [])
   end.
 Definition explain (c : case) :=
   match c with
   | CFault md U now init cs used order flts _ _ _ _ _ _ =>
       let w0 := {| bks := map (init_b now) init; pos := 0%nat; faults := flts; lorder := order |} in
       let '(w, r, s) := block md U now w0 used cs in (r, s, map (locks_in md U now) (bks w), map (data_of U now) (bks w))
+  | CCancel _ => (true, false, [], [])
   end.
